@@ -34,6 +34,7 @@ def prepare(release=False):
     gen_harness.gen_decode(facts["operand"], {f["name"] for f in facts["spirv"]["flags"]})
     gen_harness.gen_operand(facts)
     gen_harness.gen_builder(facts)
+    gen_harness.gen_convert(facts)
     p.exe, err = core.build_harness(release=False)
     if p.exe is None:
         p.broken.append({"lemma": "harness build (T-dump call stubs generated from T-src)", "error": err[-3000:]})
@@ -45,6 +46,15 @@ def prepare(release=False):
                 p.dump_spirv = json.load(f)
         else:
             p.broken.append({"lemma": "harness dump-spirv", "error": out[-2000:]})
+        d3 = os.path.join(CACHE, "dump_operand.json")
+        rc, out, _ = core.run([p.exe, "dump-operand", os.path.join(CACHE, "facts.json"), d3])
+        p.dump_operand = None
+        if rc == 0:
+            with open(d3) as f:
+                p.dump_operand = json.load(f)
+            gen_coq.gen_operand_dump(p.dump_operand, "DumpOperand")
+        else:
+            p.broken.append({"lemma": "harness dump-operand", "error": out[-2000:]})
         d2 = os.path.join(CACHE, "dump_grammar.json")
         rc, out, _ = core.run([p.exe, "dump-grammar", d2])
         if rc == 0:
